@@ -738,7 +738,7 @@ Theorem C01_chunk_multipliers_keep_length : forall w,
   (forall la lb, keeps_len (simple_chunk_fn w) la lb) /\
   (forall rec_same : mulfn, (forall m, keeps_len rec_same m m) -> forall n, (2 <= n)%nat -> keeps_len (karatsuba_same_len w rec_same) n n) /\
   (forall div6 shr1 (rec_same : mulfn) c s a b r k, toom3g_same_len w div6 shr1 rec_same c s a b = Ok (r, k) -> length r = length c).
-Proof. intros w. split; [|split]. - exact (simple_chunk_keeps_len w). - exact (karatsuba_keeps_len w). - exact (toom3g_keeps_len w). Qed.
+Proof. exact chunk_multipliers_keep_length. Qed.
 Print Assumptions C01_chunk_multipliers_keep_length.
 
 (** the hand dispatchers satisfy the GENERATED recursion equations: one level of the real code around the model is the model *)
@@ -785,7 +785,7 @@ Theorem C01_gen_multiply_sqr : forall w div2by1,
   (forall a b, mul_multiply_gen (gen_rec_same w div2by1) (gen_rec_gen w div2by1) (repeat 0 (length a + length b)) a b
                = multiply_w w div2by1 THRESHOLD_SIMPLE_gen THRESHOLD_KARATSUBA_gen CHUNK_LEN_gen a b) /\
   (forall a, ksqr_bodies_gen w div2by1 a = sqr_w w div2by1 THRESHOLD_SIMPLE_gen THRESHOLD_KARATSUBA_gen MAX_LEN_SIMPLE_gen a).
-Proof. intros w d. split. - exact (multiply_bodies_gen_eq w d). - exact (ksqr_bodies_gen_eq w d). Qed.
+Proof. exact gen_multiply_sqr. Qed.
 Print Assumptions C01_gen_multiply_sqr.
 Example C01_gen_stack_nonvacuous :
   mul_multiply_gen (gen_rec_same 64 DivWordInst.x2by1) (gen_rec_gen 64 DivWordInst.x2by1) (repeat 0 3) [2 ^ 64 - 1; 5] [2 ^ 64 - 1] = Ok [1; 2 ^ 64 - 7; 5].
